@@ -15,6 +15,12 @@ def plan(tier):
     qs = [Query('ops', ['-DMODE_OPS'] + S, ['equal pair', 'pair ordered by a later component', 'different hashes'], unwind=2, est_gb=2, hardcap=12, timeout=3600 if th else 900,
                 profile=[pv(1, 2, 3, 'a') + pv(1, 2, 3, 'a'), pv(1, 2, 3, 'a') + pv(1, 2, 3, 'b'), pv(0, 0, 0, '') + pv(1, 0, 0, 'a')],
                 sample={'values': 'two symbolic (int, unsigned char, long, string of <= %d bytes)' % SL, 'claims': 'six operators == lexicographic reference; equal => equal hash; hash_wrapper == hash'}),
+          Query('container_functors', ['-DMODE_CONT'] + S, ['equal pair', 'different pair'], unwind=2, est_gb=2, hardcap=12, timeout=3600 if th else 900,
+                profile=[pv(1, 2, 3, 'a') + pv(1, 2, 3, 'a'), pv(1, 2, 3, 'a') + pv(1, 2, 3, 'b'), pv(0, 0, 0, '') + pv(1, 0, 0, 'a')],
+                sample={'values': 'two symbolic (int, unsigned char, long, string) values', 'claims': 'unordered_set<P>::key_equal / unordered_map<P,int>::key_equal (the functors nitro::lang::unordered_* instantiate the hash container with) are value equality; their hasher is nitro::lang::hash'}),
+          Query('hash_after_change', ['-DMODE_CONT', '-DCONT_CHANGE'] + S, ['equal pair', 'different pair'], unwind=2, est_gb=2, hardcap=12, timeout=3600 if th else 900,
+                profile=[pv(1, 2, 3, 'a') + pv(1, 2, 3, 'a'), pv(1, 2, 3, 'a') + pv(1, 2, 3, 'b'), pv(0, 0, 0, '') + pv(1, 0, 0, 'a')],
+                sample={'values': 'two symbolic values x, y', 'claims': 'an object built as x, hashed, changed member by member into y and hashed again (and a copy of it) hashes like a fresh y: the hash is a function of the current value'}),
           Query('trans', ['-DMODE_TRANS'] + S, ['chain x < y < z'], unwind=2, est_gb=2, hardcap=12,
                 profile=[pv(1, 2, 3, 'a') + pv(1, 2, 3, 'b') + pv(2, 0, 0, ''), pv(0, 0, 0, '') * 3],
                 sample={'values': 'three symbolic values', 'claims': 'trichotomy, transitivity of <, <=, =='}),
@@ -33,13 +39,13 @@ def plan(tier):
                             'note': 'std::_Hash_bytes (out of line in libstdc++) is a deterministic byte mix in the model'}))
     corpus = [(['-DMODE_FP'], v) for v in fpv] + [(['-DMODE_OPS'] + S, pv(1, 2, 3, 'a') + pv(1, 2, 3, 'a')), (['-DMODE_OPS'] + S, pv(0, 0, 0, '') + pv(1, 0, 0, '')), (['-DMODE_OPS'] + S, pv(1, 200, 5, 'a') + pv(1, 100, 5, 'a')),
               (['-DMODE_OPS'] + S, pv(1, 2, 1 << 40, 'b') + pv(1, 2, 3, 'a')), (['-DMODE_OPS'] + S, pv(0xffffffff, 2, 3, 'a') + pv(1, 2, 3, 'a')),
-              (['-DMODE_TRANS'] + S, pv(1, 2, 3, 'a') + pv(1, 2, 3, 'b') + pv(2, 0, 0, '')), (['-DMODE_SENS'], [1, 2, 3, 4, 5, 6, 7, 8, 0, 9, 0, 10]), (['-DMODE_SENS'], [0] * 12),
+              (['-DMODE_TRANS'] + S, pv(1, 2, 3, 'a') + pv(1, 2, 3, 'b') + pv(2, 0, 0, '')), (['-DMODE_CONT'] + S, pv(1, 2, 3, 'a') + pv(1, 2, 3, 'a')), (['-DMODE_CONT'] + S, pv(0, 61, 0, '') + pv(1, 0, 0, '')), (['-DMODE_CONT', '-DCONT_CHANGE'] + S, pv(1, 2, 3, 'a') + pv(7, 2, 3, 'b')), (['-DMODE_CONT', '-DCONT_CHANGE'] + S, pv(1, 2, 3, 'a') + pv(1, 2, 3, 'a')), (['-DMODE_SENS'], [1, 2, 3, 4, 5, 6, 7, 8, 0, 9, 0, 10]), (['-DMODE_SENS'], [0] * 12),
               # 64-bit components that differ only in the upper / only in the lower half, sign bit, all ones
               (['-DMODE_SENS'], [1, 2, 3, 4, 5, 6, 7, 8, 1, 9, 0, 9]), (['-DMODE_SENS'], [1, 2, 3, 4, 5, 6, 7, 8, 0x80000000, 0, 0, 0]), (['-DMODE_SENS'], [0xffffffff, 0xffffffff, 0, 1, 0x7fffffff, 0x80000000, 255, 0, 0xffffffff, 0xffffffff, 0x7fffffff, 0xffffffff])]
     u = Unit('hash', 'harness/C16/h_c16.cpp', 'harness/C16/cb_c16.c', caps={'str': 4, 'vec': 2, 'ss': 4}, queries=qs, corpus=corpus)
     return Runner('C16', tier, [u],
                   bounds={'values': 'full-width symbolic int / unsigned char / long / double / float; strings of 0..%d bytes' % SL, 'pairs_triples': 'all pairs and all triples of such values'},
-                  outside=['NaN members (NaN != NaN: never part of "equal values", and the member-tuple order is not total on it)', 'long double', 'std::unordered_set/map internals (libstdc++ .so code): the container clause is reduced to hash/equality coherence',
+                  outside=['NaN members (NaN != NaN: never part of "equal values", and the member-tuple order is not total on it)', 'long double', 'std::unordered_set/map internals (libstdc++ .so code): the container clause is reduced to hash/equality coherence of the values AND of the hasher / key_equal functors nitro::lang::unordered_set / unordered_map instantiate the container with',
                            'null smart pointers (dereferenced by hash(); excluded by the statement "of hashable things")', 'wide strings'],
                   assumptions=['std::hash<float/double> is the real libstdc++ header code (zero check included); the out-of-line std::_Hash_bytes it calls is modelled by a deterministic byte mix', 'std::hash<std::string> is modelled by a deterministic, multiplication-free byte mix; std::hash<int/long/char> is the real libstdc++ header code (identity)',
                                'real <tuple>, <variant>, <memory> from libstdc++ are in the IR; shared_ptr reference-count atomics are lowered to plain read-modify-write (single-threaded harness)'])
